@@ -712,8 +712,11 @@ class Network:
         try:
             async with atimeout(timeout):
                 _, response = await future
-        except TimeoutError as exc:
-            future.set_exception(exc)
+        except TimeoutError:
+            # The future has been cancelled by the timeout (setting an exception
+            # on it would raise an InvalidStateError), only make sure it is done
+            # so that it gets removed
+            future.cancel()
             raise
 
         return response
@@ -752,8 +755,11 @@ class Network:
         try:
             async with atimeout(timeout):
                 _, response = await future
-        except TimeoutError as exc:
-            future.set_exception(exc)
+        except TimeoutError:
+            # The future has been cancelled by the timeout (setting an exception
+            # on it would raise an InvalidStateError), only make sure it is done
+            # so that it gets removed
+            future.cancel()
             raise
 
         return response
